@@ -191,3 +191,44 @@ func harnessC09OrderAgent() {
 		verif_assert(got.Metric == best, "C09/agent-lowest-metric")
 	}
 }
+
+// C08 across address families: an IPv6 default route never answers for an IPv4
+// destination (in 4-byte or mapped form), an IPv4 default route never answers
+// for an IPv6 destination
+func harnessC08Families() {
+	t := NewTable(c08ID(3))
+	v6def := &net.IPNet{IP: make(net.IP, 16), Mask: net.CIDRMask(0, 128)}
+	v4net := &net.IPNet{IP: net.IP{10, 0, 0, 0}, Mask: net.CIDRMask(8, 32)}
+	has6, has4 := verif_nondet_bool(), verif_nondet_bool()
+	if has6 {
+		t.AddRoute(&Route{Network: v6def, NextHop: c08ID(0), OriginAgent: c08ID(0), Metric: 1, Sequence: 1, Path: []identity.AgentID{c08ID(0)}})
+	}
+	if has4 {
+		t.AddRoute(&Route{Network: v4net, NextHop: c08ID(1), OriginAgent: c08ID(1), Metric: 1, Sequence: 1, Path: []identity.AgentID{c08ID(1)}})
+	}
+	a := verif_nondet_bytes(4)
+	var addr net.IP
+	switch verif_choose(3) {
+	case 0:
+		addr = net.IP{a[0], a[1], a[2], a[3]}
+	case 1:
+		addr = net.IP{0, 0, 0, 0, 0, 0, 0, 0, 0, 0, 0xff, 0xff, a[0], a[1], a[2], a[3]}
+	case 2:
+		// a genuine IPv6 destination
+		addr = net.IP{0x20, 1, 0, 0, 0, 0, 0, 0, 0, 0, 0, 0, a[0], a[1], a[2], a[3]}
+		got := t.Lookup(addr)
+		verif_reach("C08/families-v6")
+		verif_assert((got != nil) == has6, "C08/nothing-iff-no-route-contains")
+		if got != nil {
+			verif_assert(got.OriginAgent == c08ID(0), "C08/result-contains-address")
+		}
+		return
+	}
+	got := t.Lookup(addr)
+	verif_reach("C08/families-v4")
+	want := has4 && a[0] == 10
+	verif_assert((got != nil) == want, "C08/nothing-iff-no-route-contains")
+	if got != nil {
+		verif_assert(got.OriginAgent == c08ID(1), "C08/result-contains-address")
+	}
+}
